@@ -16,12 +16,20 @@ pub struct Seg {
     pub kind: SegKind,
     pub count: u64,
     pub per_chunk: u64,
+    /// check-defined parameter of the layer (e.g. input length bound)
+    pub param: usize,
 }
 
 impl Seg {
     pub fn label(&self) -> String {
         match &self.kind {
-            SegKind::Ast { scope, size } => format!("scope {} size {}", scope, size),
+            SegKind::Ast { scope, size } => {
+                if self.param > 0 {
+                    format!("scope {} size {} (inputs <= {})", scope, size, self.param)
+                } else {
+                    format!("scope {} size {}", scope, size)
+                }
+            }
             SegKind::Tok { name, len, .. } => format!("token strings {} length {}", name, len),
             SegKind::List { name } => format!("list {}", name),
         }
@@ -46,6 +54,20 @@ impl Space {
                 kind: SegKind::Ast { scope, size: n },
                 count: sc.count(n),
                 per_chunk,
+                param: 0,
+            });
+        }
+        self
+    }
+    /// AST layers min_size..=max_size with a layer parameter.
+    pub fn ast_range(&mut self, scope: &'static str, min_size: usize, max_size: usize, per_chunk: u64, param: usize) -> &mut Self {
+        let sc = gen::scope(scope);
+        for n in min_size..=max_size {
+            self.segs.push(Seg {
+                kind: SegKind::Ast { scope, size: n },
+                count: sc.count(n),
+                per_chunk,
+                param,
             });
         }
         self
@@ -56,6 +78,7 @@ impl Space {
                 kind: SegKind::Tok { alphabet, name, len },
                 count: (alphabet.len() as u64).pow(len as u32),
                 per_chunk,
+                param: 0,
             });
         }
         self
@@ -65,6 +88,7 @@ impl Space {
             kind: SegKind::List { name },
             count,
             per_chunk,
+            param: 0,
         });
         self
     }
